@@ -322,9 +322,18 @@ def build_driver(timeout=900):
         return _driver_built
     d = os.path.join(CACHE, "driver")
     os.makedirs(d, exist_ok=True)
-    cmd = ("coqc -Q %s LV %s/extract/Extract.v -o %s/Extract.vo > extract.log 2>&1 && "
+    # every module the extraction imports must be compiled against the current (regenerated) sources
+    ex = open(os.path.join(COQ, "extract", "Extract.v"), encoding="utf-8").read()
+    m = re.search(r"From LV Require Import ([^.]*)\.", ex)
+    mods = m.group(1).split() if m else []
+    okm, outm, dtm = coq_make(["corr/%s.vo" % x for x in mods])
+    if not okm:
+        _driver_built = (False, os.path.join(d, "lvdriver"), outm, dtm)
+        return _driver_built
+    # a failed extraction must never leave an older driver behind
+    cmd = ("rm -f model.ml model.mli readers.ml lvdriver Extract.vo && "
+           "coqc -Q %s LV %s/extract/Extract.v -o %s/Extract.vo > extract.log 2>&1 && "
            "python3 %s/tools/genreaders.py model.mli readers.ml && cp %s/driver/*.ml . && "
-           "ocamlfind ocamlopt -O3 -unboxed-types 2>/dev/null; "
            "ocamlfind ocamlopt -w -a -o lvdriver model.mli model.ml sexp.ml prim.ml readers.ml main.ml"
            % (COQ, COQ, d, VERIF, VERIF))
     rc, out, dt = sh(cmd, cwd=d, timeout=timeout)
